@@ -258,6 +258,15 @@ fn run_inner<P: Property>(args: &RunArgs, root: &PathBuf, start: Instant) -> i32
     // evidence
     let distinct = fps.len() as u64;
     let mut rule = P::rule();
+    if P::repeat_every() > 0 {
+        rule.push_str(&format!(
+            " History (framework): one generated case in {} (chosen by a hash of the case) and every regression replay is evaluated twice in a row in the same process and must pass both times (class evaluated-twice); each worker process evaluates its some hundred to some thousand cases one after the other, so every case also runs after the accepted and rejected inputs of all earlier ones.",
+            P::repeat_every()
+        ));
+    }
+    if P::concurrent() {
+        rule.push_str(" Concurrent use (framework): per worker up to 48 non-trivial cases that passed alone are evaluated again from 4 threads at once, each thread starting at a different offset, and must pass again (class evaluated-concurrently).");
+    }
     if agg.fp_capped {
         rule.push_str(" [distinct count capped per worker at 3e6 fingerprints: conservative]");
     }
